@@ -143,10 +143,16 @@ def obsEqC (ts : List Int) (a b : St) : Bool :=
   && livePos a.book.pos == livePos b.book.pos
   && ((livePos b.book.pos).isEmpty || (decide (a.P = b.P) && a.book.tick == b.book.tick))
 
+/-- `GridOK` on the ticks in use: positive and strictly increasing along the sorted list -/
+def gridOn (sp : Int → Rat) (ts : List Int) : Bool :=
+  let l := (ts.mergeSort (fun a b => decide (a ≤ b))).eraseDups
+  l.all (fun t => decide (0 < sp t)) && (l.zip l.tail).all (fun ab => decide (sp ab.1 < sp ab.2))
+
 /-- executable form of `Inv` (without reachability of the book, which `CLAccrual.invOn` covers with the same sums) -/
 def invOnC (s : St) : Bool :=
   (livePos s.book.pos).isEmpty ||
   (decide (0 < s.P) && priceInTickB s.sp s.P s.book.tick && decide (0 ≤ s.slack)
+   && gridOn s.sp ((s.book.pos.foldr (fun x acc => x.lo :: x.hi :: acc) []) ++ [s.book.tick, s.book.tick + 1])
    && decide (owedBase s ≤ s.base + s.slack) && decide (owedQuote s ≤ s.quote + s.slack))
 
 /-- swap trace → events.  `down` = base-for-quote.  A `.step` is followed by the `.cross`/`.move` of the same iteration
